@@ -171,6 +171,14 @@ def c08_solve(ctx, shape, scale):
                frame.diff(before, frame.snapshot(["darsia.measure.wasserstein", "darsia.utils.fv", "darsia.utils.grid"])) == [])
     # reuse of a cached factorisation: same matrix, successive right-hand sides
     J, r, _ = systems[0]
+    for c in combos:
+        # a fresh object whose very first solve already asks for reuse (for r in rhss: linear_solve(J, r, reuse_solver=True))
+        wf = solver("newton", grid, base_options(formulation=c[0], linear_solver=c[1], linear_solver_options={"rtol": 1e-11, "atol": 1e-13 if c[1] == "amg" else 0.0, "maxiter": 500}))
+        for rr in (r, systems[1][1]):
+            with warnings.catch_warnings():
+                warnings.simplefilter("ignore")
+                xf, _ = wf.linear_solve(J.copy(), rr.copy(), reuse_solver=True)
+            ens(f"{c}: reuse_solver=True from the first call on a fresh object solves the system", float(np.linalg.norm(J @ xf - rr)) <= 1e-6 * max(1.0, float(np.linalg.norm(rr))), c)
     for c in (("full", "direct"), ("flux_reduced", "direct"), ("pressure", "direct")):
         w = ws[c]
         w.linear_solve(J.copy(), r.copy(), reuse_solver=False)
@@ -207,3 +215,125 @@ def c08_lemmas(ctx):
     res = check()
     ctx.ensure("lemma file compiles with Lean 4 + Mathlib without errors, sorry, axioms or admits: " + res["output"][:300], res["ok"])
     ctx.ensure("lemma present", "schur_full_system" in res["theorems"])
+
+
+# ---- the real linear_solve on symbolic systems (back end H) -------------------------------------------------------------------
+
+from vf import symsparse
+
+
+def sparse_api(ctx):
+    """the constructors used to assemble the test system: scipy's own in the concrete evaluator, the SymCSC model in the proof"""
+    if ctx.sym:
+        return dict(diags=symsparse.diags_factory(ctx), bmat=symsparse.bmat_factory(ctx))
+    return dict(diags=sps.diags, bmat=sps.bmat)
+
+
+def symbolic_system(ctx, w, tag=""):
+    """J = [[W M_f, -D^T, 0], [D, 0, -c^T], [0, c, 0]] with an ARBITRARY positive face weighting W (symbols), arbitrary flux right-hand
+    side and an arbitrary zero-mean mass source — assembled exactly as WassersteinDistanceNewton.jacobian does."""
+    nf, nc = int(w.grid.num_faces), int(w.grid.num_cells)
+    api = sparse_api(ctx)
+    wts = ctx.array("w" + tag, (nf,), pos=True, sample=(0.05, 20.0))
+    J = api["bmat"]([[api["diags"](wts) @ w.mass_matrix_faces, -w.div.T, None], [w.div, None, -w.pressure_constraint.T],
+                     [None, w.pressure_constraint, None]], format="csc")
+    f = ctx.array("f" + tag, (nc - 1,), sample=(-1.0, 1.0))
+    f = np.concatenate([f, [-sum(f)]])
+    r = np.concatenate([ctx.array("r" + tag, (nf,), sample=(-1.0, 1.0)), w.mass_matrix_cells.dot(f), np.zeros(1)])
+    return J, r
+
+
+def _ls_cases(tier):
+    shapes = [(2,), (5,), (3, 2), (1, 4), (4, 1), (2, 2, 2), (2, 1, 3)] if tier == "quick" else \
+        [(n,) for n in range(2, 9)] + [s for s in itertools.product(range(1, 5), repeat=2) if np.prod(s) > 1] + \
+        [s for s in itertools.product(range(1, 4), repeat=3) if 1 < np.prod(s) <= 18]
+    out = [dict(shape=s, form=f, history="fresh") for s in shapes for f in FORMULATIONS]
+    out += [dict(shape=s, form=f, history=h) for s in ((3, 2), (4,)) for f in FORMULATIONS for h in ("other-system-before", "reuse-factorisation", "reuse-on-first-call")]
+    return out
+
+
+@ob("C08.linear_solve", cases=_ls_cases, mods=["darsia.measure.wasserstein", "darsia.utils.fv"], stubs=symsparse.stubs(), funcs=FUNCS, samples=(2, 4),
+    budget={"timeout_ms": 20000, "groebner_s": 40, "arith_solver": 2, "decide_ms": 3000}, tol=1e-7,
+    assumes=["sparse-matrix model (vf/symsparse.py): value semantics and exact-zero pruning of scipy.sparse, entry order within a column not modelled; validated by C08.dep_sparse",
+             "splu(M).solve(b) returns x with M x = b exactly (direct back end); AMG / CG are iterative and stay bounded (C08.solve)"],
+    cite="For every grid shape and every positive face weighting, solving a mixed flux-pressure system through the full, the flux-eliminated or the "
+         "pressure-only formulation ... that solution satisfies the original full system",
+    note="the REAL linear_solve / eliminate_flux / eliminate_lagrange_multiplier / compute_flux_update (incl. the CSC-array surgery and its setup) executed on a "
+         "system with symbolic positive face weights and symbolic right-hand side; only the factorisation is an assumed contract.  Per shape, ALL weights / sources")
+def c08_linear_solve(ctx, shape, form, history):
+    grid, h = grid_of(shape)
+    w = solver("newton", grid, base_options(formulation=form, linear_solver="direct"))
+    nf, nc = int(grid.num_faces), int(grid.num_cells)
+    if history == "other-system-before":
+        J0, r0 = symbolic_system(ctx, w, "p")
+        w.linear_solve(J0, r0.copy())
+    J, r = symbolic_system(ctx, w)
+    # "reuse-on-first-call": a fresh object asked to reuse a factorisation it does not have yet must set one up for THIS matrix
+    x, stats = w.linear_solve(J, r.copy(), reuse_solver=(history == "reuse-on-first-call"))
+    if history in ("reuse-factorisation", "reuse-on-first-call"):
+        # documented reuse: same matrix, new right-hand side, cached factorisation
+        f2 = ctx.array("g", (nc - 1,), sample=(-1.0, 1.0))
+        r = np.concatenate([ctx.array("s", (nf,), sample=(-1.0, 1.0)), w.mass_matrix_cells.dot(np.concatenate([f2, [-sum(f2)]])), np.zeros(1)])
+        x, stats = w.linear_solve(J, r.copy(), reuse_solver=True)
+    res = J.dot(x) - r
+    for i in range(len(r)):
+        ctx.ensure(f"row {i} of the original full system J x = r ({'flux' if i < nf else 'mass balance' if i < nf + nc else 'pressure constraint'})", eq(res[i], 0.0))
+    ctx.ensure("pressure pinned at the reference cell", eq(x[nf + w.constrained_cell_flat_index], 0.0))
+    ctx.ensure("the multiplier vanishes for a zero-mean mass source", eq(x[-1], 0.0))
+    ctx.ensure("the right-hand side handed in is not modified", eq(r[-1], 0.0))
+
+
+@ob("C08.dep_sparse", kind="B", cases=[dict(n=n) for n in (2, 3, 5)], samples=(6, 30), funcs=[], tol=1e-12,
+    cite="(validation of an assumed dependency contract)", note="the SymCSC model against the installed scipy.sparse on random matrices with forced zeros and cancellations")
+def c08_dep_sparse(ctx, n):
+    rng = np.random.default_rng(ctx.rng.randrange(1 << 30))
+    from vf.symsparse import SymCSC, bmat_factory, csc_matrix_factory, diags_factory
+
+    def rnd(m, k):
+        a = rng.integers(-2, 3, size=(m, k)).astype(float)
+        a[rng.random((m, k)) < 0.4] = 0.0
+        return a
+    A, B, C = rnd(n, n), rnd(n, n), rnd(n, n + 1)
+    sA, sB, sC = sps.csc_matrix(A), sps.csc_matrix(B), sps.csc_matrix(C)
+    mk = csc_matrix_factory(ctx)
+    mA, mB, mC = mk(A), mk(B), mk(C)
+
+    def pattern(m):
+        c = m.tocoo()
+        return {(int(i), int(j)) for i, j in zip(c.row, c.col)}
+
+    def same(label, real, model):
+        ctx.tick()
+        ctx.ensure(f"{label}: values", bool(np.array_equal(np.asarray(real.toarray(), dtype=float), np.asarray(model.toarray(), dtype=float))))
+        ctx.ensure(f"{label}: stored pattern", pattern(real) == set(model.entries()) and real.nnz == model.nnz)
+        ctx.ensure(f"{label}: format", real.format == model.format)
+    same("constructor from dense", sA, mA)
+    same("A + B", sA + sB, mA + mB)
+    same("A - A (everything cancels)", sA - sA, mA - mA)
+    same("A - B", sA - sB, mA - mB)
+    same("A @ B", sA @ sB, mA @ mB)
+    same("A.dot(C)", sA.dot(sC), mA.dot(mC))
+    same("A.T", sA.T, mA.T)
+    same("A.T @ B", sA.T @ sB, mA.T @ mB)
+    same("A @ B.T", sA @ sB.T, mA @ mB.T)
+    same("A + B.T", sA + sB.T, mA + mB.T)
+    same("-A", -sA, -mA)
+    same("2.5 * A", 2.5 * sA, 2.5 * mA)
+    same("slice", sA[slice(0, n - 1), slice(1, n)], mA[slice(0, n - 1), slice(1, n)])
+    same("slice copy", sC[slice(1, n), slice(0, n)].copy(), mC[slice(1, n), slice(0, n)].copy())
+    d = rng.integers(-1, 3, size=n).astype(float)
+    sd, md = sps.diags(d), diags_factory(ctx)(d)
+    same("diags(d) @ A", sd @ sA, md @ mA)
+    same("A @ diags(d)", sA @ sd, mA @ md)
+    same("diags(d).dot(A.T)", sd.dot(sA.T), md.dot(mA.T))
+    same("A.dot(diags(d).dot(A.T))", sA.dot(sd.dot(sA.T)), mA.dot(md.dot(mA.T)))
+    same("diags(d, format=csc)", sps.diags(d, format="csc"), diags_factory(ctx)(d, format="csc"))
+    same("bmat", sps.bmat([[sd @ sA, -sC], [sC.T, None]], format="csc"), bmat_factory(ctx)([[md @ mA, -mC], [mC.T, None]], format="csc"))
+    row, col = rng.integers(0, n, 8), rng.integers(0, n, 8)
+    dat = rng.integers(-2, 3, 8).astype(float)
+    same("coo constructor with duplicates", sps.csc_matrix((dat, (row, col)), shape=(n, n)), mk((dat, (row, col)), shape=(n, n)))
+    same("(data, indices, indptr) constructor", sps.csc_matrix((sA.data, sA.indices, sA.indptr), shape=sA.shape), mk((sA.data, sA.indices, sA.indptr), shape=sA.shape))
+    v = rng.standard_normal(n)
+    ctx.ensure("matvec", bool(np.allclose(sA.dot(v), np.asarray(mA.dot(v), dtype=float))))
+    ctx.ensure("diagonal", bool(np.array_equal(sA.diagonal(), np.asarray(mA.diagonal(), dtype=float))))
+    ctx.ensure("mixed operands (model @ scipy)", bool(np.array_equal((sA @ sB).toarray(), np.asarray((mA @ sB).toarray(), dtype=float))))
